@@ -340,7 +340,7 @@ def mixed_body(c):
 def tests():
     out = []
     for name, t in sorted(TEMPLATES.items()):
-        out.append(Test("hvp:" + name, partial(_body, t), quick=30 * t.weight, thorough=400 * t.weight, shard_size=100))
+        out.append(Test("hvp:" + name, partial(_body, t), quick=50 * t.weight, thorough=400 * t.weight, shard_size=100))
     out.append(Test("hvp:programs", _prog_body, quick=400, thorough=6000, shard_size=100))
     out.append(Test("mixed_partials", mixed_body, quick=400, thorough=3000, shard_size=100))
     out.append(Test("order3", partial(high_order_body, 3), quick=300, thorough=5000, shard_size=100))
